@@ -2,7 +2,7 @@
 sub-expression, up to a depth budget). The first generator (qgen.py) writes hand-picked idioms with a bias;
 this one makes no choice of idiom, so that combinations nobody thought of appear with some probability.
 
-  num   := const | o.m() | num op num | abs(num) | fn(num) | (num if bool else num)
+  num   := const | o.m() | num op num | abs(num) | fn(num) | (num if bool else num) | (lambda n: num)(num)
            | seq_num.Agg() | seq_obj.Count() | seq_obj.First().m() | seq_num.First()
   bool  := num cmp num | bool and bool | bool or bool | not bool | o.isGood()
   seq_obj := e.Coll(bank) | seq_obj.Where(lambda o: bool) | o.subs() | seq_obj.SelectMany(lambda o: seq_obj)
@@ -52,7 +52,7 @@ class G2:
         if env["objs"]:
             opts += [("getter", 8), ("intgetter", 2)]
         if d > 0:
-            opts += [("arith", 3), ("abs", 1), ("fn", 1), ("ifexp", 2)]
+            opts += [("arith", 3), ("abs", 1), ("fn", 1), ("ifexp", 2), ("let", 1)]
             if env["e"] or env["objs"]:
                 opts += [("agg", 4), ("count", 3), ("first_obj", 2), ("first_num", 1)]
         k = qgen.weighted_choice(r, opts)
@@ -83,6 +83,14 @@ class G2:
             if f == "sin":
                 return f"sin({self.num(env, d - 1)})"
             return f"DeltaR({self.num(env, 0)}, {self.num(env, 0)}, {self.num(env, 0)}, {self.num(env, 0)})"
+        if k == "let":
+            # a value bound to a lambda argument and used wherever the body likes (several times, in any block)
+            was = self.uncond
+            self.uncond = False  # evaluated where the body first uses it, if at all
+            x = self.num(env, d - 1)
+            self.uncond = was
+            v = self.var("n")
+            return f"(lambda {v}: {self.num(self.push_num(env, v), d - 1)})({x})"
         if k == "ifexp":
             was = self.uncond
             c = self.boolean(env, d - 1)
